@@ -36,10 +36,6 @@ def set_input_dispatch_by_period(holder, period, array) -> None:
         existing_array = holder.get_array(sub_period)
         if existing_array is None:
             holder._set(sub_period, array)
-        else:
-            # The array of the current sub-period is reused for the next ones.
-            # TODO: refactor or document this behavior
-            array = existing_array
         sub_period = sub_period.offset(1)
 
 
